@@ -234,11 +234,15 @@ class NetworkGraph(AbstractBaseIR):
                         # TODO: sort edges into unique delay/spread combinations and only loop over those
                         if spreads:
                             for i, (edge, delay, spread, node) in enumerate(zip(scalar_edges, delays, spreads, nodes)):
+                                if not delay:
+                                    continue  # undelayed edge: keeps reading the source variable itself
                                 self._add_edge_buffer(node_name, op_name, var_name, edges=[edge], delays=[delay],
                                                       nodes=[node], spreads=[spread], dde_approx=dde_approx,
                                                       buffer_id=f"_out{i}")
                         else:
                             for i, (edge, delay, node) in enumerate(zip(scalar_edges, delays, nodes)):
+                                if not delay:
+                                    continue  # undelayed edge: keeps reading the source variable itself
                                 self._add_edge_buffer(node_name, op_name, var_name, edges=[edge], delays=[delay],
                                                       nodes=[node], dde_approx=dde_approx, buffer_id=f"_out{i}")
 
@@ -315,7 +319,7 @@ class NetworkGraph(AbstractBaseIR):
             # extract delay
             d = self.edges[s, t, e]['delay']
             if type(d) is list:
-                d = [1 if d_tmp is None else d_tmp for d_tmp in d]
+                d = [0 if d_tmp is None else d_tmp for d_tmp in d]
 
             # extract and process delay distribution spread
             v = self.edges[s, t, e].pop('spread', [0])
@@ -329,7 +333,8 @@ class NetworkGraph(AbstractBaseIR):
 
             # finalize edge delay
             if d is None or np.sum(d) == 0:
-                d = [1] * n_slots
+                # undelayed edge: reads slot 0 of the source buffer, i.e. the value written in the same evaluation
+                d = [0] * n_slots
             else:
                 d = self._process_delays(d, discretize=discretize)
 
@@ -660,7 +665,7 @@ class NetworkGraph(AbstractBaseIR):
 
             buffer_eqs = []
             for i, (d, sidx) in enumerate(zip(delays, source_idx)):
-                var_delayed = f"past({var}, {d})" if type(d) is float or d != 1 else var
+                var_delayed = f"past({var}, {d})" if d != 0 else var
                 if len(target_shape) < 1 or (len(target_shape) == 1 and target_shape[0] == 1):
                     buffer_eqs.append(f"{var}_buffered{buffer_id} = {var_delayed}")
                 else:
